@@ -63,18 +63,28 @@ class FtAction:
 
 
 class World:
-    def __init__(self, spec, xd, salt=""):
+    def __init__(self, spec, xd, salt="", wrap=None):
+        """wrap: {label: key} - the tree of that root lives one level down, in rootcontainer[key]
+        (used to rebind a label to a nested reference in copy_expr_from)."""
         self.spec = spec
         self.xd = xd
         self.salt = salt
+        self.wrap = dict(wrap or {})
         self.mgr = xd.Manager()
         self.sidpath = {}
         self.rootobj = {}
         self.rootref = {}
+        self.basecont = {}     # label -> container holding the spec tree of that root
         for label, mode, ctype, children in spec.roots:
             c = self._mk(ctype, children, (label,))
-            self.rootobj[label] = c
-            self.rootref[label] = self.mgr.ref(c, label) if mode == "ref" else self.mgr.refattr(c, label)
+            self.basecont[label] = c
+            if label in self.wrap:
+                outer = SimDict([(self.wrap[label], c)])
+                self.rootobj[label] = outer
+                self.rootref[label] = self.mgr.ref(outer, label)
+            else:
+                self.rootobj[label] = c
+                self.rootref[label] = self.mgr.ref(c, label) if mode == "ref" else self.mgr.refattr(c, label)
         if spec.funcs:
             self.rootobj["f"] = SimFuncs()
             self.rootref["f"] = self.mgr.ref(self.rootobj["f"], "f")
@@ -102,15 +112,22 @@ class World:
         self.sidpath[raw_get(c, "_sid") if ctype == "obj" else c._sid] = path
         return c
 
-    def rebind(self, mgr, rootobj):
-        """Adopt a restored manager/containers (after a pickle restart)."""
-        self.mgr = mgr
-        self.rootobj = rootobj
-        self.rootref = dict(mgr.containers)
-        self.sidpath = {}
+    @classmethod
+    def adopt(cls, spec, xd, salt, mgr, rootobj, ftasks=None, knobs=None):
+        """A World around a restored manager and containers (after a pickle restart)."""
+        w = cls.__new__(cls)
+        w.spec, w.xd, w.salt, w.wrap = spec, xd, salt, {}
+        w.mgr = mgr
+        w.rootobj = rootobj
+        w.basecont = {k: v for k, v in rootobj.items() if k != "f"}
+        w.rootref = dict(mgr.containers)
+        w.sidpath = {}
         for label, obj in rootobj.items():
             if label != "f":
-                self._index_sids(obj, (label,))
+                w._index_sids(obj, (label,))
+        w.ftasks = dict(ftasks or {})
+        w.knobs = dict(knobs or {})
+        return w
 
     def _index_sids(self, c, path):
         sid = object.__getattribute__(c, "_sid")
@@ -123,6 +140,8 @@ class World:
     # ---- refs and expressions ---------------------------------------------
     def ref(self, path):
         r = self.rootref[path[0]]
+        if path[0] in self.wrap:
+            r = r[self.wrap[path[0]]]
         for kind, key in path[1:]:
             if kind == "i":
                 r = r[key]
@@ -156,16 +175,16 @@ class World:
 
     # ---- user-level access (logged, faultable) ------------------------------
     def _container(self, path):
-        c = self.rootobj[path[0]]
+        c = self.basecont[path[0]]
         for kind, key in path[1:]:
             c = raw_get(c, key)
         return c
 
     def user_get(self, path):
-        return user_get(self.rootobj, path)
+        return user_get(self.basecont, path)
 
     def user_set(self, path, v):
-        user_set(self.rootobj, path, v)
+        user_set(self.basecont, path, v)
 
     # ---- observation (never logged) ------------------------------------------
     def contents(self):
@@ -188,12 +207,13 @@ class World:
 
     # ---- assignment styles -----------------------------------------------------
     def _assign(self, path, value, style):
-        owner = self.ref(path[:-1]) if len(path) > 2 else self.rootref[path[0]]
+        owner = self.ref(path[:-1]) if (len(path) > 2 or path[0] in self.wrap) else self.rootref[path[0]]
         kind, key = path[-1]
         if style == "mgr":
             self.mgr.set_value(self.ref(path), value)
         elif kind == "a" or (style == "attr" and isinstance(key, str) and key.isidentifier()
-                              and self.spec.root_mode.get(path[0], ("", ""))[0] == "refattr" and len(path) == 2):
+                              and self.spec.root_mode.get(path[0], ("", ""))[0] == "refattr" and len(path) == 2
+                              and path[0] not in self.wrap):
             setattr(owner, key, value)
         else:
             owner[key] = value
@@ -213,7 +233,7 @@ class World:
             self._assign(op[1], self.build(op[2]), op[3] if len(op) > 3 else "item")
         elif kind == "inpl":
             path, o, operand = op[1], op[2], op[3]
-            owner = self.ref(path[:-1]) if len(path) > 2 else self.rootref[path[0]]
+            owner = self.ref(path[:-1]) if (len(path) > 2 or path[0] in self.wrap) else self.rootref[path[0]]
             k, key = path[-1]
             x = self.build(operand)
             # exactly what `owner[key] op= x` does
@@ -242,7 +262,7 @@ class World:
             ttar = set()
             for t in targets:
                 ttar.update(self.ref(p) for p in prefixes(t))
-            act = FtAction(self.rootobj, name, deps, targets, coefs)
+            act = FtAction(self.basecont, name, deps, targets, coefs)
             task = self.xd.tasks.FunctionTask("f:%s" % name, act, ttar, tdeps)
             mgr.register(task)
             self.ftasks[name] = task
